@@ -237,6 +237,10 @@ def run_kani(twin_dir, flavour, package, harnesses, timeout_s, jobs, log_path, p
         cmd += ["-j", str(jobs)]
     for h in harnesses:
         cmd += ["--harness", h["full_name"]]
+    # CBMC applies field-sensitive SSA (and hence constant propagation through memory) only to arrays of
+    # at most 64 elements by default; heap buffers of Vec/Box are byte arrays, so lengths and pointers stored
+    # in them looked symbolic to the unwinder (probe P21: OOM after 300 s -> verdict in 6 s with 1024).
+    cbmc_args = ["--max-field-sensitivity-array-size", os.environ.get("VERIF_FIELD_SENS", "1024")]
     t0 = time.time()
     overall = timeout_s * max(1, (len(harnesses) + jobs - 1) // jobs) + 900
     with Lock(f"target-{flavour}") as lk:
@@ -253,7 +257,8 @@ def run_kani(twin_dir, flavour, package, harnesses, timeout_s, jobs, log_path, p
                     log.write("\n".join("UNWINDSET-ERROR: " + e for e in errors) + "\n")
                 return 2, time.time() - t0, " ".join(cmd)
             if labels:
-                cmd += ["--cbmc-args", "--unwindset", ",".join(f"{k}:{v}" for k, v in sorted(labels.items()))]
+                cbmc_args += ["--unwindset", ",".join(f"{k}:{v}" for k, v in sorted(labels.items()))]
+        cmd += ["--cbmc-args"] + cbmc_args
         with open(log_path, "w") as log:
             try:
                 p = subprocess.run(cmd, cwd=twin_dir, env=kani_env(), stdout=log, stderr=subprocess.STDOUT,
